@@ -39,6 +39,7 @@ class HSimulator(Simulator):
         self.observer = observer  # called with the simulation at the start of every step()
         self.log = []  # (kind, ...) events of the last simulation
         self.perturbed = 0  # how many reported values were actually shifted
+        self.effects = []  # (true value, reported value) of every shifted report
         self.last = None  # last HSimulation created (also when it was rejected)
 
     def hit(self, site):
@@ -130,8 +131,10 @@ class HSimulation(Simulation):
         self.updates[i] = u + 1
         pl = self.owner.perturb
         if pl is not None and pl["obj"] == i and pl["update"] == u and pl["prop"] in vals:
-            vals[pl["prop"]] = _shift(vals[pl["prop"]], pl["delta"])
+            orig = vals[pl["prop"]]
+            vals[pl["prop"]] = _shift(orig, pl["delta"])
             self.owner.perturbed += 1
+            self.owner.effects.append((orig, vals[pl["prop"]]))
         return vals
 
 
